@@ -19,8 +19,9 @@ type LemmaResult struct {
 	Script   string
 	Ob       *Obligation
 	Err      string
-	Decided  bool   // a syntactic side condition: already decided, nothing to solve
-	LeanFile string // a Lean lemma: checked by lean, not by an SMT solver
+	Decided  bool     // a syntactic side condition: already decided, nothing to solve
+	LeanFile string   // a Lean lemma: checked by lean, not by an SMT solver
+	Assumes  []string // "-- assumes: ..." / "; assumes: ..." header lines: hypotheses of the lemma nothing establishes
 }
 
 func lemmasFor(db *ContractDB, prop string) []*LemmaResult {
@@ -39,6 +40,9 @@ func lemmasFor(db *ContractDB, prop string) []*LemmaResult {
 				for _, p := range strings.Split(strings.TrimPrefix(line, "; property:"), ",") {
 					l.Props = append(l.Props, strings.TrimSpace(p))
 				}
+			}
+			if strings.HasPrefix(line, "; assumes:") {
+				l.Assumes = append(l.Assumes, "lemma "+l.Name+": "+strings.TrimSpace(strings.TrimPrefix(line, "; assumes:")))
 			}
 			if strings.HasPrefix(line, "; expect:") {
 				l.Expect = strings.TrimSpace(strings.TrimPrefix(line, "; expect:"))
@@ -67,6 +71,9 @@ func leanLemmasFor(prop string) []*LemmaResult {
 		l := &LemmaResult{Name: strings.TrimSuffix(filepath.Base(fn), ".lean"), Expect: "lean", Script: string(b), LeanFile: fn}
 		for _, line := range strings.Split(string(b), "\n") {
 			line = strings.TrimSpace(line)
+			if strings.HasPrefix(line, "-- assumes:") {
+				l.Assumes = append(l.Assumes, "lemma "+l.Name+": "+strings.TrimSpace(strings.TrimPrefix(line, "-- assumes:")))
+			}
 			if strings.HasPrefix(line, "-- property:") {
 				for _, p := range strings.Split(strings.TrimPrefix(line, "-- property:"), ",") {
 					l.Props = append(l.Props, strings.TrimSpace(p))
